@@ -32,6 +32,7 @@ BUDGET = {
 }
 CALL_LIMIT = 20          # seconds per compose / parse call on generated input
 BUNDLED_LIMIT = 600      # seconds per bundled file (thorough tier)
+MAX_REPORTED = 5         # concrete failing inputs reported per run (the rest are counted in the evidence)
 
 
 # ================================================================================================
@@ -309,16 +310,31 @@ def c05_text_case(text, expected=None, limit=CALL_LIMIT, tmp=None):
 
 
 def explain_c05(lines, exp, doc):
-    """attribute every difference to one known reader limitation, using what the TEXT contains"""
+    """Attribute every difference to a known reader limitation, using what the TEXT contains.
+    Returns the causes joined by '+' (generated cases have one), or None if some difference is
+    not explained by a feature present in the very cell / net it concerns."""
     summ = ec.doc_summary(doc)
     causes = set()
-    # per cell: features of its written nets
-    feats = {}
+    feats = {}        # (library key, cell key) as in the expected structure -> cause -> [net names]
+    lib_dups = {}     # library key -> names / identifiers involved in duplicate cell display names
+    lkeys = {}
     for L in summ['libraries']:
+        lk = _dupkey(lkeys, _dn(L['name']))
+        ckeys = {}
+        seen_names = collections.Counter(_dn(C['name']) for C in L['cells'])
+        dupnames = set(n for n, k in seen_names.items() if k > 1)
+        lib_dups[lk] = set()
         for C in L['cells']:
+            if _dn(C['name']) in dupnames:
+                lib_dups[lk].add(_dn(C['name']))
+                lib_dups[lk].add(C['name'][0])
+        for C in L['cells']:
+            ck = _dupkey(ckeys, _dn(C['name']))
             f = collections.defaultdict(list)
             idents = set(n['name'][0].lower() for n in C['nets'])
             seen_bits = collections.Counter()
+            display = collections.Counter()
+            shorts = set()
             for nnet in C['nets']:
                 ident, orig = nnet['name']
                 mi = re.match(r'^(.*)_(\d+)_$', ident, re.S)
@@ -327,20 +343,46 @@ def explain_c05(lines, exp, doc):
                     short_i, short_n = mi.group(1), mn.group(1)
                     if (short_i == '&' or short_i.startswith('&_')) and not short_i.endswith('_'):
                         f['amp-underscore-bits-not-merged'].append(short_n)
-                    if short_n.startswith('\\') and orig.count(' ') != 1:
+                    elif short_n.startswith('\\') and orig.count(' ') != 1:
                         f['backslash-bits-not-merged'].append(short_n)
                     if '*' in short_n or '?' in short_n:
                         f['glob-name-merge'].append(short_n)
                     if short_i.lower() in idents:
                         f['short-identifier-owned-by-another-net'].append(short_n)
                     seen_bits[(short_n, int(mn.group(2)))] += 1
-                elif orig is not None and ('*' in orig or '?' in orig):
-                    f['glob-name-merge'].append(orig)
+                    shorts.add(short_n)
+                else:
+                    display[orig if orig is not None else ident] += 1
+                    if orig is not None and ('*' in orig or '?' in orig):
+                        f['glob-name-merge'].append(orig)
             for (short_n, bit), k in seen_bits.items():
                 if k > 1:
                     f['duplicate-bit-net'].append(short_n)
-            feats[(_dn(L['name']), _dn(C['name']))] = f
+            for nm, k in display.items():
+                if nm in shorts:
+                    f['scalar-net-named-like-a-bus-of-the-cell'].append(nm)
+                elif k > 1:
+                    f['nets-sharing-a-display-name'].append(nm)
+            feats[(lk, ck)] = f
     for line in lines:
+        # library level: cells sharing a display name (all but the first fall back to the identifier)
+        lk = None
+        for k in lib_dups:
+            if line.startswith('/libraries/%s/order:' % k) and lib_dups[k]:
+                lk = k
+        if lk is not None:
+            causes.add('cells-sharing-a-display-name-fall-back-to-identifier')
+            continue
+        for k in lib_dups:
+            if line.startswith('/libraries/%s/cells/' % k) and (lk is None or len(k) > len(lk)):
+                lk = k
+        if lk is not None and lib_dups[lk]:
+            rest = line[len('/libraries/%s/cells/' % lk):]
+            hit = any(rest.startswith(n) for n in lib_dups[lk]) or \
+                (re.search(r'/instances/.*/ref: ', rest) and any(repr(n) in rest.split('/ref: ', 1)[1] for n in lib_dups[lk]))
+            if hit:
+                causes.add('cells-sharing-a-display-name-fall-back-to-identifier')
+                continue
         key = None
         for (l, c) in feats:
             if line.startswith('/libraries/%s/cells/%s/' % (l, c)):
@@ -349,20 +391,40 @@ def explain_c05(lines, exp, doc):
         if key is None:
             return None
         tail = line[len('/libraries/%s/cells/%s/' % key):]
-        if not (tail.startswith('nets/') or tail.startswith('net_order')):
+        present = [k for k, v in feats[key].items() if v]
+        if not present:
             return None
-        cands = [k for k, v in feats[key].items() if v]
-        if len(cands) != 1:
+        if tail.startswith('net_order'):
+            continue                      # follows from the differing nets of the same cell, judged below
+        if not tail.startswith('nets/'):
             return None
-        k = cands[0]
-        if tail.startswith('nets/') and k != 'glob-name-merge':
-            netname = tail[len('nets/'):]
-            if not any(netname.startswith(nm) for nm in feats[key][k]):
-                return None
-        causes.add(k)
-    if len(causes) == 1:
-        return causes.pop()
-    return None
+        netname = tail[len('nets/'):]
+        hit = None
+        for k in present:
+            if k == 'glob-name-merge':
+                continue
+            for nm in feats[key][k]:
+                if netname == nm or netname.startswith(nm + '[') or netname.startswith(nm + '/') or \
+                        netname.startswith(nm + ':') or netname.startswith(nm + '<dup>'):
+                    hit = k
+        if hit is None and 'glob-name-merge' in present:
+            hit = 'glob-name-merge'        # a pattern can capture any net of the cell
+        if hit is None:
+            return None
+        causes.add(hit)
+    if not causes:
+        return None
+    return '+'.join(sorted(causes))
+
+
+def _dupkey(seen, k):
+    """the key edif_canon._put gives to the n-th element named k"""
+    if k is None:
+        k = '<None>'
+    while k in seen:
+        k = k + '<dup>'
+    seen[k] = True
+    return k
 
 
 def run_c05_design(design, render_seed):
@@ -511,9 +573,14 @@ def run(prop, tier, seed, replay):
         rng = random.Random('%d/mech/%s' % (seed, prop))
         m = budget['mech']
         with ec.TempDir() as tmp:
-            for name, f in (('topo', lambda: em.check_topo(rng, m)), ('names', lambda: em.check_names(rng, 2 * m)),
-                            ('multibit', lambda: em.check_multibit(rng, m)), ('member', lambda: em.check_member(rng, m // 2)),
-                            ('bus', lambda: em.check_bus(rng, m, tmp)), ('lex', lambda: em.check_lex(rng, m))):
+            # C03 = writer and reader mechanisms; C05 = reader mechanisms only (the nets fed to the
+            # reader then come from the harness, not from spydrnet's writer)
+            mechs = [('names', lambda: em.check_names(rng, 2 * m)), ('multibit', lambda: em.check_multibit(rng, m)),
+                     ('bus', lambda: em.check_bus(rng, m, tmp, real_writer=(prop == 'C03'))),
+                     ('nets', lambda: em.check_nets(rng, m, tmp)), ('lex', lambda: em.check_lex(rng, m))]
+            if prop == 'C03':
+                mechs = [('topo', lambda: em.check_topo(rng, m)), ('member', lambda: em.check_member(rng, m // 2))] + mechs
+            for name, f in mechs:
                 try:
                     n, bad, st = f()
                 except Exception as e:
@@ -551,16 +618,18 @@ def run(prop, tier, seed, replay):
                 distinct.add(key)
             if len(samples) < 2:
                 samples.append({'case': c, 'risky': risky, 'spec_head': json.dumps(spec)[:600]})
-            if res is not None and res['kind'] == 'inexpressible':
-                stats['inexpressible_skipped'] += 1
+            if res is not None and res['kind'] in ('inexpressible', 'build-refused'):
+                stats[res['kind'] + '_skipped'] += 1
                 continue
             n_eval += 1
             if res is not None:
                 failures_seen += 1
                 hist['outcome:' + res['signature']] += 1
-                if failures_seen <= 40:
+                if res['signature'] in known_by_sig or len(rep.violations) < MAX_REPORTED:
                     handle_failure('gen-%d-%d' % (seed, c), res, {'kind': 'c03-spec', 'spec': spec},
                                    shrink=lambda spec=spec, res=res: shrink_c03(spec, res))
+                else:
+                    stats['unreported_generated_failures'] += 1
             else:
                 hist['outcome:holds'] += 1
         else:
@@ -583,7 +652,7 @@ def run(prop, tier, seed, replay):
             if res is not None:
                 failures_seen += 1
                 hist['outcome:' + res['signature']] += 1
-                if failures_seen <= 40:
+                if res['signature'] in known_by_sig or len(rep.violations) < MAX_REPORTED:
                     handle_failure('gen-%d-%d' % (seed, c), res, {'kind': 'c05-design', 'design': dj, 'render_seed': rseed, 'text': info.get('text')},
                                    shrink=lambda design=design, rseed=rseed, res=res: shrink_c05(design, rseed, res))
             else:
@@ -617,7 +686,10 @@ def run(prop, tier, seed, replay):
         distinct.add('bundled:' + fn)
         if res is not None and res['kind'] != 'inexpressible':
             res = dict(res, signature=res['signature'] + '|' + fn)
-            handle_failure('bundled-' + fn, res, {'kind': 'bundled', 'file': fn})
+            if res['signature'] in known_by_sig or len(rep.violations) < 2 * MAX_REPORTED:
+                handle_failure('bundled-' + fn, res, {'kind': 'bundled', 'file': fn})
+            else:
+                stats['unreported_bundled_failures'] += 1
 
     # ---- 6. correspondence disagreements: search the implementation for a property failure ----
     if mech_bad:
